@@ -47,7 +47,12 @@ def judge(case):
     if case["what"] == "monotone":
         ps = sorted(case["ps"])
         v = []
-        imgs = [float(convert(p, d, mix).p) for p in ps]
+        imgs = []
+        for p_ in ps:
+            st_c, c_ = core.call(convert, p_, d, mix)
+            if st_c != "ok":
+                return core.result("raised", viol=[core.viol("C15/valid_rejected", "conversion %s of the valid fraction %r raises %r" % (d, p_, c_))])
+            imgs.append(float(c_.p))
         ex = [Fraction(exact(p, d, m1, m2)) for p in ps]
         for i in range(len(ps) - 1):
             if imgs[i + 1] < imgs[i]:
@@ -74,7 +79,10 @@ def judge(case):
     if not abs((c.first + c.second) - 1.0) <= 4e-16:
         v.append(core.viol("C15/sum", "first + second = %r" % (c.first + c.second)))
     # round trip
-    back = c.to_weight(mix) if d == "w2m" else c.to_molar(mix)
+    st_b, back = core.call(c.to_weight if d == "w2m" else c.to_molar, mix)
+    if st_b != "ok":
+        v.append(core.viol("C15/round_trip/" + d, "%r -> %r, and converting that back raises %r" % (p, r, back)))
+        return core.result("round-trip-raised", digest=core.digest_of([core.fhex(r)]), viol=v)
     if not abs(float(back.p) - p) <= core.ULP * abs(p) + (6e-16 if p > 0.5 else 0.0) + 1e-300:
         v.append(core.viol("C15/round_trip/" + d, "%r -> %r -> %r" % (p, r, float(back.p))))
     # ratio law away from the ends
